@@ -75,3 +75,18 @@ func (b *VerifBench) BlockHoldC01(chans [][]uint16, signed []bool, firstFrame, f
 	}
 	return errText, primaries, held
 }
+
+// VerifWithEdgeMultiC01 returns ts with EdgeMulti switched on and the EMTState that the RPC layer
+// (SourceControl.ConfigureTriggers) derives from the backward-compatible fields.
+func VerifWithEdgeMultiC01(ts TriggerState, nmonotone int, disableZeroThreshold bool, level int32) (TriggerState, error) {
+	ts.EdgeMulti = true
+	ts.EdgeMultiVerifyNMonotone = nmonotone
+	ts.EdgeMultiDisableZeroThreshold = disableZeroThreshold
+	ts.EdgeMultiLevel = level
+	s, err := ts.EMTBackwardCompatibleRPCFields.toEMTState()
+	if err != nil {
+		return ts, err
+	}
+	ts.EMTState = s
+	return ts, nil
+}
